@@ -686,6 +686,10 @@ def describe(c, ops, result: str):
     return kind, frames >= 1 and len(ops) >= 2
 
 
+from common.py2lean_specs import with_translation  # noqa: E402
+
+
+@with_translation
 class C08(Property):
     id = "C08"
     title = "A render iterator yields exactly the frames its operation history dictates"
